@@ -1,6 +1,7 @@
 #!/bin/sh
 # End-to-end replay of the findings of DESIGN.md section 5 on the real interpreter (native runner of air-test-utils).
 # usage: tools/e2e_replay.sh [test-name-filter]     exit 0 = no replay panics
+#        VERIF_E2E_FEATURES=gen_signatures,check_signatures tools/e2e_replay.sh verif_f8   (replays that need real signature verification)
 set -e
 HERE="$(cd "$(dirname "$0")/.." && pwd)"
 REPO="${VERIF_REPO:-/repo}"
@@ -10,4 +11,4 @@ mkdir -p "$S"
 rsync -a --exclude target --exclude .git "$REPO"/ "$S"/src/
 cat "$HERE"/replay/*.rs >> "$S/src/air/tests/test_module/negative_tests/uncatchable_trace_related.rs"
 cd "$S/src"
-CARGO_TARGET_DIR="${VERIF_E2E_TARGET:-$S/target}" RUST_BACKTRACE=0 CARGO_NET_OFFLINE=true cargo test -p aquavm-air --features air-test-utils/test_with_native_code --offline --test test_module "${1:-verif_}" -- --test-threads 1 --nocapture 2>&1 | grep -E "^test |panicked at|test result|^error|VERIF F4" | tail -40
+CARGO_TARGET_DIR="${VERIF_E2E_TARGET:-$S/target}" RUST_BACKTRACE=0 CARGO_NET_OFFLINE=true cargo test -p aquavm-air --features "air-test-utils/test_with_native_code${VERIF_E2E_FEATURES:+,$VERIF_E2E_FEATURES}" --offline --test test_module "${1:-verif_}" -- --test-threads 1 --nocapture 2>&1 | grep -E "^test |panicked at|test result|^error|VERIF F" | tail -40
